@@ -58,6 +58,16 @@ def has(ast, kinds):
     return any(has(x, kinds) for x in ast[1:] if isinstance(x, tuple))
 
 
+def quantifier_depth(ast):
+    """how deeply repetition operators are nested (0: none).  Python's backtracking `re` can take exponential time on depth >= 2."""
+    k = ast[0]
+    if k in ('lit', 'set', 'nset', 'any'):
+        return 0
+    if k in ('cat', 'alt'):
+        return max(quantifier_depth(x) for x in ast[1:])
+    return 1 + quantifier_depth(ast[1])
+
+
 def postfixed_twice(ast):
     """x** / x+? etc: a postfix operator applied directly to a postfix operator prints as an ambiguous (lazy /
     possessive) quantifier in re syntax; such ASTs are not generated."""
